@@ -33,3 +33,4 @@ def check(repo, rep, tier):
             rep.violation('C16.A6', 'generate_expr:%s' % h, 'atom text is pasted without repr(): the run-time string differs from the source string', h.func.loc())
     rep.minimum('string literal templates', len(table), 1)
     rc.rule_list_order(cm, rep, 'C16.A7')
+    re_.rule_unquote_delimiters(cm, rep, 'C16.A8')
